@@ -40,6 +40,11 @@ fn main() {
         }
         return;
     }
+    if args[1] == "sched" {
+        install_panic_hook();
+        sched_demo(&args[2]);
+        return;
+    }
     if args[1] == "bench" {
         install_panic_hook();
         bench_vsys();
@@ -143,4 +148,29 @@ pub fn bench_vsys() {
         assert_eq!(r.trace.len(), 1);
     }
     println!("{} runs, {:.1} us each", n, t.elapsed().as_secs_f64() * 1e6 / n as f64);
+}
+
+#[allow(dead_code)]
+pub fn sched_demo(script: &str) {
+    use std::collections::BTreeSet;
+    for preempt in [false, true] {
+        let mut outs = BTreeSet::new();
+        let mut maxc = 0;
+        let mut dead = 0;
+        for seed in 0..200u64 {
+            let mut s = vsys::Setup::script(script);
+            s.chooser = if seed == 0 { vsys::Chooser::Fifo } else { vsys::Chooser::Seeded(seed) };
+            s.preempt = preempt;
+            let r = vsys::run(&s);
+            maxc = maxc.max(r.log.choices.len());
+            if r.log.deadlock || !r.finished {
+                dead += 1;
+            }
+            outs.insert((r.stdout.clone(), r.status, r.stderr.clone()));
+        }
+        println!("preempt={preempt}: distinct outcomes={} max choice points={} deadlocks={}", outs.len(), maxc, dead);
+        for o in outs.iter().take(4) {
+            println!("  {:?}", o);
+        }
+    }
 }
